@@ -810,6 +810,9 @@ func prefixComma(parts []string) string {
 
 func genFields(r *kernel.RNG, self int) []sField {
 	n := r.Range(1, 4)
+	if r.Chance(0.06) {
+		n = 0 // a struct without fields is a declaration like any other
+	}
 	var fs []sField
 	for i := 0; i < n; i++ {
 		t := r.Pick(c17BaseTypes)
@@ -951,7 +954,8 @@ func genC17(r *kernel.RNG, tier string, i int) interface{} {
 			op.Var = vs[r.Intn(len(vs))]
 			fs := declared[inst[[2]int{e, op.Var}]]
 			if len(fs) == 0 {
-				continue
+				// the declaration now in force has no fields: aim at a name other declarations of the family use
+				fs = []sField{{Name: c17FieldNames[r.Intn(2)], Type: r.Pick(c17BaseTypes)}}
 			}
 			f := fs[r.Intn(len(fs))]
 			op.Field = f.Name
